@@ -82,6 +82,11 @@ fn c01() {
             }
         }
     }}}}
+    // multi-byte code points straddling 4096-byte multiples, every version
+    for v in 1..=4u8 { for (pre, ch) in [(4095usize, "\u{e9}"), (4094, "\u{20ac}"), (4095, "\u{20ac}"), (4093, "\u{1F511}"), (8191, "\u{e9}"), (12287, "\u{1F511}"), (4096, "\u{e9}")] { let m = format!("{}{ch}{}", "a".repeat(pre), "b".repeat(700));
+        match local::enc(v, 1, 2, &m, &None, &None, false) { Ok(t) => match local::dec(v, 1, &t, &None, &None) { Ok(p) if p == m => {}, o => return wit(format!("C01 v{v}.local round trip of a {}-byte message with {ch:?} starting at byte {pre}: {:?}", m.len(), o.map(|p| p.len()).map_err(|e| format!("{e:?}")))) }, Err(e) => return wit(format!("C01 v{v}.local try_encrypt failed: {e}")) } } }
+    // assertions and footers that begin or end with white space
+    for v in 3..=4u8 { for i in [" x", "x\n", " ", "tenant=42\n", "\tx\t"] { for f in [None, Some(" f ".to_string())] { match local::enc(v, 1, 2, "{\"a\":1}", &f, &Some(i.to_string()), false) { Ok(t) => { if local::dec(v, 1, &t, &f, &Some(i.to_string())).ok().as_deref() != Some("{\"a\":1}") { return wit(format!("C01 v{v}.local token built with assertion {i:?} and footer {f:?} does not decrypt under the same assertion and footer")); } } Err(e) => return wit(format!("C01 v{v}.local try_encrypt with assertion {i:?} fails: {e}")) } } } }
     // large messages (no size limit on either side)
     for v in 1..=4u8 { let m = "y".repeat(70_000); match local::enc(v, 1, 2, &m, &None, &None, false) { Ok(t) => match local::dec(v, 1, &t, &None, &None) { Ok(p) if p == m => {}, o => return wit(format!("C01 v{v}.local round trip of a 70000-byte message fails: {:?}", o.map(|p| p.len()).map_err(|e| format!("{e:?}")))) }, Err(e) => return wit(format!("C01 v{v}.local try_encrypt of a 70000-byte message failed: {e}")) } }
     { let key = lkv(PasetoSymmetricKey::<V4, Local>::from(key32(3))); let big = "z".repeat(66_000);
@@ -425,6 +430,11 @@ fn footer_rebinding(pid: &str) {
 }
 #[cfg(feature = "main_set")]
 fn layer_setter_orders(pid: &str) {
+    // core builder: payload, footer and assertion set in every order give the same token
+    { let key = PasetoSymmetricKey::<V4, Local>::from(key32(1)); let n = Key::<32>::from([2u8; 32]); let want = R::v4l(&{ let mut k = [1u8; 32]; k[0] = 7; k }, &[2; 32], b"{\"a\":1}", b"ft", b"ia");
+      for order in [[0u8, 1, 2], [0, 2, 1], [1, 0, 2], [1, 2, 0], [2, 0, 1], [2, 1, 0]] { let mut b = Paseto::<V4, Local>::builder();
+        for o in order { match o { 0 => { b.set_payload(Payload::from("{\"a\":1}")); } 1 => { b.set_footer(Footer::from("ft")); } _ => { b.set_implicit_assertion(ImplicitAssertion::from("ia")); } } }
+        match b.try_encrypt(&key, &PasetoNonce::<V4, Local>::from(&n)) { Ok(t) if t == want => {}, o => return wit(format!("{pid} core v4.local builder with set_payload / set_footer / set_implicit_assertion called in order {order:?} (0=payload,1=footer,2=assertion) gives {o:?}, expected {want}")) } } }
     // footer / assertion given to builders and parsers in every order, replaced, and cleared again
     let key = lkv(PasetoSymmetricKey::<V4, Local>::from(key32(1)));
     for (bf, bi) in [(Some("F"), Some("A")), (Some("F"), None), (None, Some("A")), (None, None)] {
@@ -551,7 +561,32 @@ fn c06() {
         let same = i.as_deref().unwrap_or("") == i2.as_deref().unwrap_or("");
         let r = Paseto::<V4, Public>::try_verify(&t, &pkk, f.map(Footer::from), i2.as_deref().map(|x| ImplicitAssertion::from(lk(x))));
         if r.is_ok() != same { return wit(format!("C06 v4.public token built with footer {f:?} and assertion {i:?}, verified with footer {f:?} and assertion {i2:?} -> {:?} (must {})", r.map_err(|e| format!("{e:?}")), if same { "succeed" } else { "fail" })); } } } } }
+    // generic and batteries-included layers (local and public): accepted iff the assertion is byte-equal (absent == empty only); the LAST assertion set
+    // on a builder / parser is the one in force; a parser re-configured after a parse judges the same token anew
+    { let asr: Vec<Option<&'static str>> = vec![None, Some(""), Some("ia"), Some(" "), Some("ia "), Some(" ia"), Some("\t"), Some("IA"), Some("{}")];
+      let key = lkv(PasetoSymmetricKey::<V4, Local>::from(key32(1))); let (kp, pk) = R::ed_keypair(9); let sk = lkv(PasetoAsymmetricPrivateKey::<V4, Public>::from(lkv(Key::<64>::from(kp)))); let pkk = lkv(PasetoAsymmetricPublicKey::<V4, Public>::from(lkv(Key::<32>::from(pk))));
+      let names = ["GenericBuilder/GenericParser<V4,Local>", "PasetoBuilder/PasetoParser<V4,Local>", "GenericBuilder/GenericParser<V4,Public>", "PasetoBuilder/PasetoParser<V4,Public>"];
+      for layer in 0..4 { for first in [None, Some("first")] { for i in &asr {
+        macro_rules! build { () => { match layer { 0 => { let mut b = GenericBuilder::<V4, Local>::default(); b.set_claim(AudienceClaim::from("a")); if let Some(x) = first { b.set_implicit_assertion(ImplicitAssertion::from(x)); } if let Some(x) = i { b.set_implicit_assertion(ImplicitAssertion::from(*x)); } b.try_encrypt(key) }
+            1 => { let mut b = PasetoBuilder::<V4, Local>::default(); if let Some(x) = first { b.set_implicit_assertion(ImplicitAssertion::from(x)); } if let Some(x) = i { b.set_implicit_assertion(ImplicitAssertion::from(*x)); } b.build(key) }
+            2 => { let mut b = GenericBuilder::<V4, Public>::default(); b.set_claim(AudienceClaim::from("a")); if let Some(x) = first { b.set_implicit_assertion(ImplicitAssertion::from(x)); } if let Some(x) = i { b.set_implicit_assertion(ImplicitAssertion::from(*x)); } b.try_sign(sk) }
+            _ => { let mut b = PasetoBuilder::<V4, Public>::default(); if let Some(x) = first { b.set_implicit_assertion(ImplicitAssertion::from(x)); } if let Some(x) = i { b.set_implicit_assertion(ImplicitAssertion::from(*x)); } b.build(sk) } } } }
+        if first.is_some() && i.is_none() { continue; }
+        let t = match build!() { Ok(t) => lk(&t), Err(e) => return wit(format!("C06 {}: build with assertion {i:?} fails: {e}", names[layer])) };
+        let bound = i.unwrap_or("");
+        for i2 in &asr { let same = bound == i2.unwrap_or("");
+            macro_rules! parse_with { ($pre:expr) => { match layer { 0 => { let mut p = GenericParser::<V4, Local>::default(); if let Some(x) = $pre { p.set_implicit_assertion(ImplicitAssertion::from(x)); let _ = p.parse(t, key); } if let Some(x) = i2 { p.set_implicit_assertion(ImplicitAssertion::from(*x)); } p.parse(t, key).is_ok() }
+                1 => { let mut p = PasetoParser::<V4, Local>::default(); if let Some(x) = $pre { p.set_implicit_assertion(ImplicitAssertion::from(x)); let _ = p.parse(t, key); } if let Some(x) = i2 { p.set_implicit_assertion(ImplicitAssertion::from(*x)); } p.parse(t, key).is_ok() }
+                2 => { let mut p = GenericParser::<V4, Public>::default(); if let Some(x) = $pre { p.set_implicit_assertion(ImplicitAssertion::from(x)); let _ = p.parse(t, pkk); } if let Some(x) = i2 { p.set_implicit_assertion(ImplicitAssertion::from(*x)); } p.parse(t, pkk).is_ok() }
+                _ => { let mut p = PasetoParser::<V4, Public>::default(); if let Some(x) = $pre { p.set_implicit_assertion(ImplicitAssertion::from(x)); let _ = p.parse(t, pkk); } if let Some(x) = i2 { p.set_implicit_assertion(ImplicitAssertion::from(*x)); } p.parse(t, pkk).is_ok() } } } }
+            let ok = parse_with!(None::<&'static str>);
+            if ok != same { return wit(format!("C06 {}: a token built with assertion {i:?}{}, parser asserting {i2:?}: accepted = {ok} (must be {same})", names[layer], if first.is_some() { " (set after an earlier \"first\")" } else { "" })); }
+            if i2.is_some() && first.is_none() { let pre = if bound.is_empty() { None } else { Some(bound) };
+                let ok2 = parse_with!(pre); if ok2 != same { return wit(format!("C06 {}: one parser first parses a token under its own assertion {i:?}, is then given assertion {i2:?} and parses the same token again: accepted = {ok2} (must be {same})", names[layer])); } } } } } } }
     layers_roundtrip(); layer_setter_orders("C06");
+    { let key = PasetoSymmetricKey::<V4, Local>::from(key32(1)); let n = Key::<32>::from([2u8; 32]); let mut b = Paseto::<V4, Local>::builder(); b.set_payload(Payload::from("{}")); b.set_implicit_assertion(ImplicitAssertion::from("A1")); b.set_implicit_assertion(ImplicitAssertion::from("A2"));
+      if let Ok(t) = b.try_encrypt(&key, &PasetoNonce::<V4, Local>::from(&n)) { let with = |a: &'static str| Paseto::<V4, Local>::try_decrypt(&t, &key, None, Some(ImplicitAssertion::from(a))).is_ok();
+        if !with("A2") || with("A1") { return wit(format!("C06 core v4.local builder: set_implicit_assertion(A1) then set_implicit_assertion(A2): the token is accepted with A2 = {}, with A1 = {} (must be true, false)", with("A2"), with("A1"))); } } }
     // second build from the same core builder keeps the assertion
     for v in 3..=4u8 { if let Ok(t) = local::enc(v, 1, 2, "{}", &None, &Some("ia".into()), true) { if local::dec(v, 1, &t, &None, &Some("ia".into())).is_err() { return wit(format!("C06 v{v}.local: second try_encrypt from one builder lost the implicit assertion (token {t})")); } } }
 }
@@ -619,6 +654,7 @@ fn c08() {
             match b.try_sign(&PasetoAsymmetricPrivateKey::<V2, Public>::from(k64)) { Ok(t) if t == want => {}, o => return wit(format!("C08 v2.public token differs from the specification for message len {} footer {:?}", m.len(), f)) }
         }
     }}}
+    layer_setter_orders("C08");
     // reused builders at every layer: the footer (and assertion) in force is the LAST one set - incl. the empty one - and the token is the specification's for it
     { let claims_payload = "{\"aud\":\"a\"}";
       for seq in [vec!["x", ""], vec!["", "x"], vec!["x", "y"], vec!["x", "", "y"], vec!["x", "y", ""], vec![""], vec!["x", "x"]] { let last = *seq.last().unwrap();
@@ -901,7 +937,7 @@ fn c13() {
 #[cfg(feature = "main_set")]
 fn case_variant_claims(pid: &str) {
     let key = lkv(PasetoSymmetricKey::<V4, Local>::from(key32(1)));
-    for (name, lower) in [("EXP", "exp"), ("Exp", "exp"), ("IAT", "iat"), ("Nbf", "nbf"), ("ISS", "iss"), ("Sub", "sub")] {
+    for (name, lower) in [("EXP", "exp"), ("Exp", "exp"), ("IAT", "iat"), ("Nbf", "nbf"), ("ISS", "iss"), ("Sub", "sub"), (" exp", "exp"), ("exp ", "exp"), (" iat", "iat"), ("nbf ", "nbf"), ("exp\t", "exp"), ("\nexp", "exp")] {
         let mut b = PasetoBuilder::<V4, Local>::default(); b.set_no_expiration_danger_acknowledged(); b.set_claim(CustomClaim::try_from((name, "custom")).unwrap());
         match b.build(key) { Ok(t) => { if let Ok(j) = GenericParser::<V4, Local>::default().parse(lk(&t), key) {
             if j[name] != "custom" { return wit(format!("{pid} custom claim {name:?} set on a PasetoBuilder does not appear under that key: {j}")); }
@@ -1009,6 +1045,13 @@ fn c15() {
         exp!("scope=\"\" (token has scope=admin)", CustomClaim::try_from(("scope", "")).unwrap(), false);
         exp!("empty=\"\" (token has empty=\"\")", CustomClaim::try_from(("empty", "")).unwrap(), true);
         exp!("missing=\"\" (absent)", CustomClaim::try_from(("missing", "")).unwrap(), false); } }
+    { for val in ["https://Auth.Example.com", "MixedCase", " padded ", "UPPER", "\u{c9}cole"] { for (cn, ci) in [("iss", 0), ("sub", 1), ("aud", 2), ("jti", 3)] {
+        let t_same = v4tok(&format!("{{\"{cn}\":{}}}", serde_json::to_string(val).unwrap())).0; let t_low = v4tok(&format!("{{\"{cn}\":{}}}", serde_json::to_string(&val.to_lowercase()).unwrap())).0; let t_trim = v4tok(&format!("{{\"{cn}\":{}}}", serde_json::to_string(val.trim()).unwrap())).0;
+        for layer in 0..2 { macro_rules! run { ($tok:expr) => {{ if layer == 0 { let mut p = GenericParser::<V4, Local>::default(); match ci { 0 => { p.check_claim(IssuerClaim::from(lk(val))); } 1 => { p.check_claim(SubjectClaim::from(lk(val))); } 2 => { p.check_claim(AudienceClaim::from(lk(val))); } _ => { p.check_claim(TokenIdentifierClaim::from(lk(val))); } } p.parse(lk($tok), key).is_ok() }
+                                                        else { let mut p = PasetoParser::<V4, Local>::default(); match ci { 0 => { p.check_claim(IssuerClaim::from(lk(val))); } 1 => { p.check_claim(SubjectClaim::from(lk(val))); } 2 => { p.check_claim(AudienceClaim::from(lk(val))); } _ => { p.check_claim(TokenIdentifierClaim::from(lk(val))); } } p.parse(lk($tok), key).is_ok() } }} }
+            if !run!(&t_same) { return wit(format!("C15 a parser expecting {cn} = {val:?} rejects a token whose {cn} is exactly that string")); }
+            if val.to_lowercase() != val && run!(&t_low) { return wit(format!("C15 a parser expecting {cn} = {val:?} accepts a token whose {cn} is the lower-case form {:?}", val.to_lowercase())); }
+            if val.trim() != val && run!(&t_trim) { return wit(format!("C15 a parser expecting {cn} = {val:?} accepts a token whose {cn} is the trimmed form {:?}", val.trim())); } } } } }
     // expected string claims are compared as the strings they are (commas, brackets, digits are just characters)
     { for val in ["billing,shipping", "customers,", "Acme, Inc.", "[\"a\"]", "12", "true", "null"] { let t_s = v4tok(&format!("{{\"aud\":{},\"sub\":{}}}", serde_json::to_string(val).unwrap(), serde_json::to_string(val).unwrap())).0;
         let arr: Vec<&str> = val.split(',').map(|x| x.trim()).filter(|x| !x.is_empty()).collect(); let t_a = v4tok(&format!("{{\"aud\":{},\"sub\":{}}}", serde_json::to_string(&arr).unwrap(), serde_json::to_string(&arr).unwrap())).0;
@@ -1139,6 +1182,13 @@ fn c16() {
       if p.parse(lk(&t7), key).is_ok() { return wit("C16 validate_claim(sub, accept) followed by extend_validation_claims({sub: reject}): the later (rejecting) validator is not honoured".into()); }
       let mut p = GenericParser::<V4, Local>::default(); let mut vm: ValidatorMap = HashMap::new(); vm.insert("sub".to_string(), Box::new(accept)); p.extend_validation_claims(vm); p.validate_claim(SubjectClaim::from("alice"), &reject);
       if p.parse(lk(&t7), key).is_ok() { return wit("C16 extend_validation_claims({sub: accept}) followed by validate_claim(sub, reject): the later (rejecting) validator is not honoured".into()); } }
+    // a validator stays in force when an expected value is registered for the same key, before or after it
+    { let t10 = v4tok("{\"sub\":\"alice\",\"exp\":\"2999-01-01T00:00:00Z\"}").0;
+      for order in 0..2 { for layer in 0..2 { CALLS.store(0, Ordering::SeqCst);
+        let ok = if layer == 0 { let mut p = GenericParser::<V4, Local>::default(); if order == 0 { p.validate_claim(SubjectClaim::from("alice"), &reject); p.check_claim(SubjectClaim::from("alice")); } else { p.check_claim(SubjectClaim::from("alice")); p.validate_claim(SubjectClaim::from("alice"), &reject); } p.parse(lk(&t10), key).is_ok() }
+                 else { let mut p = PasetoParser::<V4, Local>::default(); if order == 0 { p.validate_claim(SubjectClaim::from("alice"), &reject); p.check_claim(SubjectClaim::from("alice")); } else { p.check_claim(SubjectClaim::from("alice")); p.validate_claim(SubjectClaim::from("alice"), &reject); } p.parse(lk(&t10), key).is_ok() };
+        if ok && order == 1 { return wit(format!("C16 {}: check_claim(sub = alice) then validate_claim(sub, rejecting): the parse succeeds (validator calls: {})", if layer == 0 { "GenericParser" } else { "PasetoParser" }, CALLS.load(Ordering::SeqCst))); }
+        if ok && order == 0 { return wit(format!("C16 {}: validate_claim(sub, rejecting) then check_claim(sub = alice): the parse succeeds - the expected-value registration removed the validator (validator calls: {})", if layer == 0 { "GenericParser" } else { "PasetoParser" }, CALLS.load(Ordering::SeqCst))); } } } }
     // never invoked on unauthenticated tokens
     { let mut p = GenericParser::<V4, Local>::default(); p.validate_claim(SubjectClaim::from("x"), &accept); CALLS.store(0, Ordering::SeqCst);
       let mut bad = t.clone(); bad.pop(); bad.push('A'); let _ = p.parse(lk(&bad), key); let wrong = lkv(PasetoSymmetricKey::<V4, Local>::from(key32(9))); let _ = p.parse(lk(&t), wrong);
@@ -1292,6 +1342,8 @@ fn c18() {
     for a in alpha { for b in alpha { for c in alpha { keys.push([a, b, c].iter().collect()); } } }
     for k in &keys { let must_fail = reserved.contains(&k.as_str());
         let r1 = CustomClaim::try_from(k.as_str()).is_err(); let r2 = CustomClaim::try_from((k.as_str(), 1)).is_err(); let r3 = CustomClaim::try_from((k.clone(), "v")).is_err();
+        if must_fail { for (form, e) in [("&str", CustomClaim::try_from(k.as_str()).err().map(|e| format!("{e:?}"))), ("(&str, T)", CustomClaim::try_from((k.as_str(), 1)).err().map(|e| format!("{e:?}"))), ("(String, T)", CustomClaim::try_from((k.clone(), "v")).err().map(|e| format!("{e:?}")))] {
+            if let Some(e) = e { if !e.starts_with("Reserved") { return wit(format!("C18 CustomClaim with the reserved key {k:?} ({form} form) fails with {e}, not with the reserved-key error")); } } } }
         if r1 != must_fail || r2 != must_fail || r3 != must_fail { return wit(format!("C18 CustomClaim with key {k:?}: rejected by (&str, (&str,T), (String,T)) constructors = ({r1},{r2},{r3}) but reserved = {must_fail}")); } }
     let good = ["2019-01-01T00:00:00Z", "2019-01-01T00:00:00+00:00", "2039-12-31T23:59:59.123456789Z", "2019-01-01T00:00:00.5-23:59", "1971-06-01T12:00:00+05:30",
                 "2019-01-01T00:00:00.1234567+01:00", "2019-01-01T00:00:00.123456789+01:00", "2019-01-01T00:00:00.123456789-11:30", "9999-12-31T23:59:59Z", "0001-01-01T00:00:00Z", "2020-02-29T23:59:59Z", "2019-01-01T00:00:00.000000000Z",
@@ -1390,6 +1442,17 @@ fn v3pub(pid: &str) {
     let priv_ = lkv(PasetoAsymmetricPrivateKey::<V3, Public>::from(k48)); let pub_ = lkv(PasetoAsymmetricPublicKey::<V3, Public>::try_from(k49).unwrap());
     let ref_verify = |t: &str, f: &str, i: &str| -> Option<Vec<u8>> { let rest = t.strip_prefix("v3.public.")?; let d = R::unb64(rest.split('.').next()?)?; if d.len() < 96 { return None; } let (m, s) = d.split_at(d.len() - 96);
         let pre = R::pae(&[&pkb, b"v3.public.", m, f.as_bytes(), i.as_bytes()]); let mut h = sha2::Sha384::new(); h.update(&pre); VerifyingKey::from(&sk).verify_digest(h, &Signature::try_from(s).ok()?).ok()?; Some(m.to_vec()) };
+    // several key pairs: compressed points with tag 0x02 and with tag 0x03 must both be usable, at every layer
+    { let mut tags = std::collections::BTreeSet::new();
+      for seed in 1u8..=12 { let skb2 = [seed.wrapping_mul(17).wrapping_add(1); 48]; let Ok(sk2) = SigningKey::from_bytes((&skb2[..]).into()) else { continue };
+        let pkb2: [u8; 49] = VerifyingKey::from(&sk2).to_encoded_point(true).as_bytes().try_into().unwrap(); tags.insert(pkb2[0]);
+        let k48b = lkv(Key::<48>::from(skb2)); let k49b = lkv(Key::<49>::from(pkb2)); let privb = lkv(PasetoAsymmetricPrivateKey::<V3, Public>::from(k48b));
+        let pubb = match PasetoAsymmetricPublicKey::<V3, Public>::try_from(k49b) { Ok(p) => lkv(p), Err(e) => return wit(format!("{pid} a valid compressed P-384 public key with SEC1 tag {:#04x} is refused by PasetoAsymmetricPublicKey::<V3,Public>::try_from: {e:?}", pkb2[0])) };
+        let mut b = Paseto::<V3, Public>::builder(); b.set_payload(Payload::from("{\"a\":1}"));
+        match b.try_sign(privb) { Ok(t) => { if Paseto::<V3, Public>::try_verify(&t, pubb, None, None).ok().as_deref() != Some("{\"a\":1}") { return wit(format!("{pid} v3.public: a token signed under a key pair whose public point has SEC1 tag {:#04x} does not verify back to its message", pkb2[0])); } }
+            Err(e) => return wit(format!("{pid} v3.public try_sign fails under key pair #{seed}: {e:?}")) }
+        let mut pbd = PasetoBuilder::<V3, Public>::default(); if let Ok(t) = pbd.build(privb) { if PasetoParser::<V3, Public>::default().parse(lk(&t), pubb).is_err() { return wit(format!("{pid} PasetoBuilder/PasetoParser<V3,Public> round trip fails under a key pair whose public point has SEC1 tag {:#04x}", pkb2[0])); } } }
+      if tags.len() < 2 { eprintln!("note: only one SEC1 tag among the test key pairs"); } }
     for m in ["", "{\"a\":1}", &"x".repeat(130)] { for f in [None, Some("ft"), Some(" ")] { for i in [None, Some("ia")] {
         let mut b = Paseto::<V3, Public>::builder(); b.set_payload(Payload::from(m)); if let Some(f) = f { b.set_footer(Footer::from(f)); } if let Some(i) = i { b.set_implicit_assertion(ImplicitAssertion::from(i)); }
         for round in 0..2 {
@@ -1545,6 +1608,12 @@ fn layer_matrix(pid: &str) {
               if g || p { return wit(format!("C07 authentic v2.public token presented {how} to the v4.public parsers with the same Ed25519 key bytes: GenericParser accepts = {g}, PasetoParser accepts = {p}")); }
               for ltok in [tt.to_string(), t.replacen("v2.public.", "v4.local.", 1)] { let ltok = lk(&ltok); let k = lkv(PasetoSymmetricKey::<V4, Local>::from(Key::<32>::from(pk)));
                   if GenericParser::<V4, Local>::default().parse(ltok, k).is_ok() || PasetoParser::<V4, Local>::default().parse(ltok, k).is_ok() { return wit(format!("C07 v2.public token accepted by a v4.local parser keyed with the public key bytes: {ltok}")); } } } }
+          // one parser instance: an authentic token of its own protocol first, then the foreign ones (a remembered result must not leak)
+          if let (Some(own), Some(foreign)) = (t4s.first(), t2s.first()) { let own = lk(own);
+              for (how, tt) in [("verbatim", foreign.clone()), ("header rewritten", foreign.replacen("v2.public.", "v4.public.", 1)), ("own token with the last character changed", { let mut x = own.to_string(); let c = x.pop().unwrap_or('A'); x.push(if c == 'A' { 'B' } else { 'A' }); x })] { let tt = lk(&tt);
+                  let mut g = GenericParser::<V4, Public>::default(); let a = g.parse(own, pk4).is_ok(); let b = g.parse(tt, pk4).is_ok();
+                  let mut p = PasetoParser::<V4, Public>::default(); let c = p.parse(own, pk4).is_ok(); let d = p.parse(tt, pk4).is_ok();
+                  if !a || !c || b || d { return wit(format!("C07 one v4.public parser: its own authentic token is accepted (generic {a}, batteries-included {c}); a v2.public token / altered token presented {how} to the SAME parser afterwards: generic accepts = {b}, batteries-included accepts = {d}")); } } }
           for t in &t4s { for (how, tt) in [("verbatim", t.clone()), ("header rewritten", t.replacen("v4.public.", "v2.public.", 1))] { let tt = lk(&tt);
               let (g, p) = (GenericParser::<V2, Public>::default().parse(tt, pk2).is_ok(), PasetoParser::<V2, Public>::default().parse(tt, pk2).is_ok());
               if g || p { return wit(format!("C07 authentic v4.public token presented {how} to the v2.public parsers with the same Ed25519 key bytes: GenericParser accepts = {g}, PasetoParser accepts = {p}")); } } } }
